@@ -40,3 +40,10 @@ add(
     "Trusts numpy as the reference for each op's result shape and the framework typing rule (vf/lang.py typeof). One open known finding (integer floordiv bound).",
     "DESIGN.md section 3 C06",
 )
+add(
+    "C10",
+    "property-based testing: generated transition tensors x algorithms vs. an explicit numpy left fold over time (differential vs. the naive variant for lagged models); grid enumeration in the thorough tier",
+    "Bounded exploration over durations 1-12, 1-3 prev->curr pairs with independently shuffled names, 0-2 batch inputs, time/batch (in)dependence, an optional free real parameter, six semirings and every num_segments for sequential/naive/mixed sequential sum-products and eager or lazily built MarkovProduct; every entry of the result is compared with the fold. sarkka_bilmes_product is compared entry-wise with its naive counterpart for all lag sets over {1,2,3}.",
+    "Trusts numpy and the 30-line fold oracle; for lagged models the naive funsor implementation is the reference (as the property states).",
+    "DESIGN.md section 3 C10",
+)
